@@ -258,7 +258,10 @@ column there), columns 2…5 hold wide runes, column 6 a narrow one.  The draw l
 loop walks by stored widths 0,2,4,6 and picks column 6 — a cell the display does not show (it is the right half of the rune
 at column 5).  The trick writes the corner glyph over that right half and repaints column 6: the clean, unlocked, visited
 wide rune at column 5 is destroyed (`garbage`) though no lock is anywhere near the corner.  Model-level witness (the model
-is tied to tscreen.go by the byte-exact correspondence); related to the open finding C13-corner-trick-locked-neighbour. -/
+is tied to tscreen.go by the byte-exact correspondence).  NOT listed as a finding: the two walks can only get out of phase
+when a wide rune is stored in the hidden right half of another one (overlapping wide runes), cells the draw oracle
+deliberately does not judge (`./check C01 --replay` of this history reports nothing); it is the reason why the invariant
+cannot be carried with only the neighbour of the corner unlocked.  Related: open finding C13-corner-trick-locked-neighbour. -/
 theorem corner_trick_lock_desync :
     let ops : List ScrOp := [.setContent 0 0 0x4e16 [] {}, .setContent 1 0 0x4e16 [] {}, .setContent 2 0 0x4e16 [] {},
       .setContent 3 0 0x4e16 [] {}, .setContent 4 0 0x4e16 [] {}, .setContent 5 0 0x4e16 [] {}, .setContent 6 0 0x78 [] {},
